@@ -251,6 +251,9 @@ func init() {
 					q := c.runner.Ask(fmt.Sprintf("quant %s %d", w, math.Float32bits(x)))
 					var qi int
 					fmt.Sscan(q, &qi)
+					if c.rng.Intn(50) == 0 {
+						xcheck("quant"+w, 24, fmt.Sprintf("quant%s (c32 %d) = %d", w, math.Float32bits(x), qi))
+					}
 					c.res.ModelCases++
 					c.res.Streams["encoder=table[quant]"]++
 					if qi < 0 || qi >= len(en.table) || en.table[qi] != y {
@@ -309,6 +312,9 @@ func init() {
 					m := c.runner.Ask(fmt.Sprintf("quant %s %d", q.w, math.Float32bits(x)))
 					c.res.ModelCases++
 					c.res.Streams["quantiser"]++
+					if i%40 == 0 {
+						xcheck("quantiser"+q.w, 24, fmt.Sprintf("quant%s (c32 %d) = %s", q.w, math.Float32bits(x), m))
+					}
 					if m != fmt.Sprint(y) {
 						c.res.mismatch(Mismatch{Stream: "quantiser", Input: in, Impl: fmt.Sprint(y), Model: m})
 					}
@@ -339,6 +345,9 @@ func init() {
 		}
 		for k, v := range e.t16 {
 			first["encode16:"+k] = v
+		}
+		if st := writeXCheck(gdir, "From Coq Require Import ZArith.\nFrom PrismV Require Import Num.Quant."); st != nil {
+			c.res.GenStages = append(c.res.GenStages, st)
 		}
 		checkStable(c, "C02", "encode", first)
 		gomaxprocsSweep(c, "C02", "encode")
